@@ -35,9 +35,20 @@ struct MObs {
     limit: u64,
     members: Vec<(u64, u32)>,
     has: Vec<(u64, Option<bool>)>,
+    member: Vec<(u64, Option<u64>)>,
     can: Vec<(u64, Option<bool>)>,
     admins: (Vec<u64>, bool),
     ledger: Ledger,
+}
+fn member_query(w: &World, a: u64) -> Option<u64> {
+    let v = w.query(&json!({"member": {"member": name(a)}})).ok()?;
+    if v["address"].as_str() != Some(name(a).as_str()) {
+        return Some(u64::MAX);
+    }
+    v["mint_count"].as_u64()
+}
+fn coq_rnums(v: &[(u64, Option<u64>)]) -> String {
+    coq_list(&v.iter().map(|(a, r)| format!("({}, {})", a, match r { Some(c) => format!("Ok {}", c), None => "Err".to_string() })).collect::<Vec<_>>())
 }
 const SENDER_PROBES: [u64; 4] = [60, 61, 62, 50];
 fn coq_rbools(v: &[(u64, Option<bool>)]) -> String {
@@ -49,11 +60,12 @@ fn coq_admins(a: &(Vec<u64>, bool)) -> String {
 impl MObs {
     fn coq(&self) -> String {
         format!(
-            "(mkMobs {} {} {} {} {} {} {})",
+            "(mkMobs {} {} {} {} {} {} {} {})",
             self.num,
             self.limit,
             coq_pairs(&self.members),
             coq_rbools(&self.has),
+            coq_rnums(&self.member),
             coq_rbools(&self.can),
             coq_admins(&self.admins),
             coq_ledger(&self.ledger)
@@ -70,6 +82,7 @@ fn observe_pf(w: &World, probes: &[u64]) -> MObs {
         limit: c["member_limit"].as_u64().unwrap_or(u64::MAX),
         members: w.members_all(None).unwrap_or_default(),
         has: probes.iter().map(|a| (*a, has_member(w, *a))).collect(),
+        member: probes.iter().map(|a| (*a, member_query(w, *a))).collect(),
         can: SENDER_PROBES.iter().map(|a| (*a, w.can_execute(*a))).collect(),
         admins: w.admin_list(),
         ledger: w.ledger(),
@@ -87,6 +100,8 @@ struct TObs {
     has: Vec<(u64, Option<bool>)>,
     /// AllStageMemberInfo { member }: (stage_id, is_member, per_address_limit) per stage
     all: Vec<(u64, Option<Vec<(u64, bool, u64)>>)>,
+    member: Vec<(u64, Option<u64>)>,
+    stage_beyond_ok: bool,
     can: Vec<(u64, Option<bool>)>,
     admins: (Vec<u64>, bool),
     ledger: Ledger,
@@ -94,7 +109,7 @@ struct TObs {
 impl TObs {
     fn coq(&self) -> String {
         format!(
-            "(mkTobs {} {} {} {} {} {} {} {} {} {} {})",
+            "(mkTobs {} {} {} {} {} {} {} {} {} {} {} {} {})",
             self.num,
             self.limit,
             self.nstages,
@@ -112,6 +127,8 @@ impl TObs {
                     })
                     .collect::<Vec<_>>()
             ),
+            coq_rnums(&self.member),
+            coq_bool(self.stage_beyond_ok),
             coq_rbools(&self.can),
             coq_admins(&self.admins),
             coq_ledger(&self.ledger)
@@ -163,6 +180,8 @@ fn observe_t(w: &World, probes: &[u64]) -> TObs {
         probe,
         has: probes.iter().map(|a| (*a, has_member(w, *a))).collect(),
         all: probes.iter().map(|a| (*a, all_stage_member_info(w, *a))).collect(),
+        member: probes.iter().map(|a| (*a, member_query(w, *a))).collect(),
+        stage_beyond_ok: w.query(&json!({"stage": {"stage_id": nstages}})).is_ok(),
         can: SENDER_PROBES.iter().map(|a| (*a, w.can_execute(*a))).collect(),
         admins: w.admin_list(),
         ledger: w.ledger(),
@@ -309,6 +328,35 @@ impl Mon {
         }
     }
 }
+impl Mon {
+    /// Member { member } of the flex whitelist answers exactly for stored members, with the stored count
+    fn member_flex(&mut self, opl: &str, w: &World, member: &[(u64, Option<u64>)]) {
+        if self.kind != Kind::Flex {
+            return;
+        }
+        let raw = w.raw_members();
+        for (a, r) in member {
+            let stored = raw.iter().find(|e| e.1 == *a).map(|e| e.2 as u64);
+            if *a >= FIRST_VALID && *r != stored {
+                self.flag(format!("C11:whitelist-flex:{}:member-query-wrong", opl), format!("Member({}) = {:?}, stored mint count {:?}", name(*a), r, stored));
+            }
+        }
+    }
+    /// Member { member } of the tiered-flex whitelist never reports a count that is stored in no stage
+    fn member_tiered(&mut self, opl: &str, w: &World, o: &TObs) {
+        let raw = w.raw_members();
+        for (a, r) in &o.member {
+            if let Some(c) = r {
+                if !raw.iter().any(|e| e.1 == *a && e.2 as u64 == *c && (e.0 as u64) < o.nstages) {
+                    self.flag(format!("C11:{}:{}:member-query-wrong", self.kind.label(), opl), format!("Member({}) = {} but no stage stores that", name(*a), c));
+                }
+            }
+        }
+        if o.stage_beyond_ok {
+            self.flag(format!("C11:{}:{}:stage-beyond-answered", self.kind.label(), opl), format!("Stage {{ stage_id: {} }} answers although there are {} stages", o.nstages, o.nstages));
+        }
+    }
+}
 fn track_admins(want: &mut (Vec<u64>, bool), op: &Op) {
     match op {
         Op::UpdAdmins(l) => want.0 = l.clone(),
@@ -450,6 +498,7 @@ fn run_pf(h: &History) -> Outcome {
     };
     let mut want_admins = (h.init.admins.clone(), h.init.mutable);
     mon.admin("instantiate", &o0.can, &o0.admins, &want_admins);
+    mon.member_flex("instantiate", &w, &o0.member);
     enumeration_monitor(&mut mon, &w, "instantiate", o0.num, None);
     check_counts(&mut mon, "instantiate", &o0);
     mon.capacity("instantiate", o0.num, o0.limit, None);
@@ -470,6 +519,7 @@ fn run_pf(h: &History) -> Outcome {
             track_admins(&mut want_admins, op);
         }
         mon.admin(op.kind_label(), &o.can, &o.admins, &want_admins);
+        mon.member_flex(op.kind_label(), &w, &o.member);
         let opl = op.kind_label();
         hist.push(format!("{}:{}:{}", kind.label(), opl, if ok { "ok" } else { "err" }));
         if ok && matches!(op, Op::Add(_) | Op::Remove(_) | Op::Increase(_)) {
@@ -607,6 +657,7 @@ fn run_tiered(h: &History) -> Outcome {
     let mut want_admins = (h.init.admins.clone(), h.init.mutable);
     mon.admin("instantiate", &o0.can, &o0.admins, &want_admins);
     mon.all_info("instantiate", &w, o0.nstages, &o0.all);
+    mon.member_tiered("instantiate", &w, &o0);
     enumeration_monitor(&mut mon, &w, "instantiate", o0.num, Some(&o0.stages.iter().map(|s| s.0).collect::<Vec<_>>()));
     check_counts(&mut mon, "instantiate", &o0);
     mon.capacity("instantiate", o0.num, o0.limit, None);
@@ -627,6 +678,7 @@ fn run_tiered(h: &History) -> Outcome {
             track_admins(&mut want_admins, op);
         }
         mon.admin(op.kind_label(), &o.can, &o.admins, &want_admins);
+        mon.member_tiered(op.kind_label(), &w, &o);
         mon.all_info(op.kind_label(), &w, o.nstages, &o.all);
         let opl = op.kind_label();
         hist.push(format!("{}:{}:{}", kind.label(), opl, if ok { "ok" } else { "err" }));
@@ -1143,6 +1195,43 @@ fn probes() -> Vec<History> {
                 ],
             });
         }
+    }
+    // stage-list shapes the contracts refuse (the C11 model carries validate_stages for the
+    // ok/err of instantiate, add_stage and update_stage_config): none, reversed or empty
+    // window, overlap, touching (allowed), different denoms; whale cap in add_stage
+    for k in [Kind::Tiered, Kind::TieredFlex] {
+        v.push(History { init: t_init(k, vec![], 0, 5), steps: vec![] });
+        let shapes: Vec<(u64, u64, u64)> = vec![(200, 200, 0), (300, 200, 0), (150, 250, 0), (199, 300, 0), (200, 300, 0), (200, 300, 1)];
+        for (st, en, denom) in shapes {
+            let bad = StageSpec { start: T0 + st * S, end: T0 + en * S, pal: 2, denom };
+            let mut i = t_init(k, vec![ones(&[100]), ones(&[101])], 1, 5);
+            i.stages.push(bad.clone());
+            v.push(History { init: i, steps: vec![] });
+            v.push(History {
+                init: t_init(k, vec![ones(&[100])], 1, 5),
+                steps: vec![
+                    call(T0 + 1, 60, Op::AddStage { stage: bad.clone(), ms: ones(&[101]) }),
+                    call(T0 + 2, 60, Op::UpdStage { stage: 0, start: Some(bad.start), end: Some(bad.end), pal: None }),
+                    call(T0 + 3, 60, add(k, 0, ones(&[102]))),
+                ],
+            });
+        }
+        for (whale, cnt) in [(11u32, 11u32), (11, 12)] {
+            let mut i = t_init(k, vec![ones(&[100])], 1, 10);
+            i.whale = Some(whale);
+            v.push(History { init: i, steps: vec![call(T0 + 1, 60, Op::AddStage { stage: stage(1), ms: vec![(101, cnt), (102, 1)] }), call(T0 + 2, 60, add(k, 1, vec![(103, 99)]))] });
+        }
+        // membership answers while a stage is running (HasMember / Member use the active stage)
+        v.push(History {
+            init: t_init(k, vec![vec![(100, 2), (101, 1)], vec![(101, 3), (102, 1)]], 2, 10),
+            steps: vec![
+                call(T0 + 100 * S, 60, add(k, 1, vec![(103, 4)])),
+                call(T0 + 200 * S, 60, add(k, 1, vec![(104, 5)])),
+                call(T0 + 200 * S + 1, 60, add(k, 0, vec![(105, 6)])),
+                call(T0 + 300 * S, 60, add(k, 1, vec![(106, 1)])),
+                call(T0 + 300 * S + 1, 60, add(k, 1, vec![(107, 1)])),
+            ],
+        });
     }
     // tiered: stage bookkeeping guards
     for k in [Kind::Tiered, Kind::TieredFlex] {
